@@ -40,6 +40,12 @@ CHECK = {
         "all option sets",
         "the 'bump' after a stuck start on a boundary is the documented degenerate outcome: accepted, and "
         "the trajectory is not followed further",
+        "B = 0 uses a generic length scale (0.9371 x the lattice radius): with round step lengths a straight "
+        "line from the round lattice points ends EXACTLY on a surface (measure zero for curved paths; the exact "
+        "tie belongs to C05, 'internal move rounded onto a surface')",
+        "after a reported landing the harness crosses the boundary with OrangeTrackView::cross_boundary(); a "
+        "failed crossing or a post-crossing volume that does not contain the landing point is reported "
+        "(member:reported-landing-cannot-be-crossed, nav:volume-after-crossing-...) and ends the trajectory",
         "a sub-resolution step accepted from a start ON a boundary leaves the point on the surface without "
         "surface state (move_internal to the identical position): the trajectory is not followed further "
         "(navigation-state problem recorded for C05)",
